@@ -448,13 +448,17 @@ class Authorization(Endpoint):
             **kwargs,
         )
 
+        _mngr = self.upstream_get("context").session_manager
         _exp_in = usage_rules.get("expires_in")
+        if _exp_in is None:
+            # no lifetime in the usage rules: fall back to the token handler's lifetime,
+            # as the token endpoint does
+            _exp_in = _mngr.token_handler[token_class].lifetime
         if isinstance(_exp_in, str):
             _exp_in = int(_exp_in)
-        if _exp_in:
+        if _exp_in and _exp_in > 0:
             token.expires_at = utc_time_sans_frac() + _exp_in
 
-        _mngr = self.upstream_get("context").session_manager
         _mngr.set(_mngr.decrypt_session_id(session_id), grant)
 
         return token
